@@ -217,7 +217,21 @@ func init() {
 	bop("SetBits", "z", "z", func(s *plan.BigStep, a *aArgs) string { return retA(a.z.SetBits(wordsOf(s.S)), a.z) },
 		func(s *plan.BigStep, m *mArgs) string { return retM(m.z.SetBits(wordsOf(s.S)), m.z) })
 	bop("SetMathBigInt", "zx", "z", func(s *plan.BigStep, a *aArgs) string {
-		return retA(a.z.SetMathBigInt(a.x.MathBigInt()), a.z)
+		src := a.x.MathBigInt()
+		val := new(big.Int).Set(src)
+		want := bigObsM(src)
+		out := retA(a.z.SetMathBigInt(src), a.z)
+		// z owns its value from here on: writing to z in place must not reach
+		// the math/big value it was set from (a copy, not shared words)
+		a.z.Rsh(a.z, 1)
+		a.z.Add(a.z, a.z)
+		a.z.Not(a.z)
+		a.z.SetBit(a.z, 0, 1)
+		if got := bigObsM(src); got != want {
+			out += fmt.Sprintf(" [the *big.Int argument changed when the receiver was written afterwards: %s -> %s]", trim200(want), trim200(got))
+		}
+		a.z.SetMathBigInt(val)
+		return out
 	}, func(s *plan.BigStep, m *mArgs) string { return retM(m.z.Set(m.x), m.z) })
 
 	// read-only
@@ -248,7 +262,15 @@ func init() {
 			out += fmt.Sprint("/", a.z.Uint64())
 		}
 		_ = a.z.Size()
-		return out + fmt.Sprintf("|%x|%v|%s", a.z.Bytes(), a.z.Bits(), a.z.MathBigInt().String())
+		mb := a.z.MathBigInt()
+		mbs := mb.String()
+		// the returned value belongs to the caller: writing to it must not reach z
+		// (z is compared with the mirror after the call)
+		mb.Rsh(mb, 1)
+		mb.Add(mb, mb)
+		mb.Not(mb)
+		mb.SetBit(mb, 0, 1)
+		return out + fmt.Sprintf("|%x|%v|%s", a.z.Bytes(), a.z.Bits(), mbs)
 	}, func(s *plan.BigStep, m *mArgs) string {
 		out := ""
 		if m.z.IsInt64() {
